@@ -33,7 +33,9 @@ RULE = ("cases = (family, operation + parameters, operand tree of depth 1-3 with
         "(C and U formats), the co-iterators & | ^ - and the dense / n-ary ones, == and !=, isEmpty / countValues / "
         "len / nonEmpty, shape / depth / rank-id / default / active queries, str / repr / format / print, YAML dump "
         "and fiber2dict, uncompress, footprint queries of model.Format, image rendering (tree / uncompressed / both; "
-        "rendered twice). small scope (seed-independent): every operation x a fixed family of small operands; random: "
+        "rendered twice; with highlights - full points, sub-tensor points shorter than the depth, several workers, "
+        "wildcards, the list / single-point argument forms - rendered plain, highlighted, highlighted again, highlighted "
+        "with a fresh equal argument and plain again, all in one process). small scope (seed-independent): every operation x a fixed family of small operands; random: "
         "larger trees. non-trivial = value case with a non-empty operand and follow-ups on both sides, or a read case "
         "on an operand with > 12 objects")
 
@@ -746,6 +748,42 @@ def apply_read(op, x, a, others, tensor, case):
             except AssertionError:
                 pass
         return
+    if name.startswith("renderhl"):
+        # plain, highlighted, highlighted again (same arguments), plain again: the renderer keeps no state
+        import importlib
+        TI = importlib.import_module("fibertree.graphics.tensor_image").TensorImage
+        style = name.split(":")[1]
+
+        def mk():
+            h = {w: [tuple(p) for p in pts] for w, pts in a["hl"].items()}
+            form = a.get("form", "dict")
+            if form == "list":          # list of points, no worker
+                return [p for pts in h.values() for p in pts]
+            if form == "single":        # one point per worker
+                return {w: pts[0] for w, pts in h.items()}
+            return h
+
+        def shot(**kw):
+            try:
+                im = TI(x, style=style, **kw).im
+                return [list(im.size), hashlib.sha1(im.tobytes()).hexdigest()]
+            except Exception as e:
+                return [H.err_class(e)]
+        hl = mk()
+        plain1 = shot()
+        first = shot(highlights=hl)
+        second = shot(highlights=hl)
+        fresh = shot(highlights=mk())
+        plain2 = shot()
+        case["_render_same"] = (first == second == fresh)
+        case["_render_size"] = first[0]
+        case["_render_extra"] = {
+            "plain_render_unaffected_by_highlighted_render": plain1 == plain2,
+            "highlights_argument_unchanged": hl == mk(),
+            "render_raises_nothing": all(len(r) == 2 for r in (plain1, first, second, fresh, plain2)),
+        }
+        case["_render_drawn"] = (first != plain1)
+        return
     if name.startswith("render"):
         import importlib
         TI = importlib.import_module("fibertree.graphics.tensor_image").TensorImage
@@ -787,6 +825,9 @@ def run_read(case):
     if "_render_same" in case:
         side["rendered_twice_pixel_identical"] = case.pop("_render_same")
         impl["render_size"] = case.pop("_render_size")
+    if "_render_extra" in case:
+        side.update(case.pop("_render_extra"))
+        impl["highlight_drawn"] = case.pop("_render_drawn")
     # rank lists by identity, stated separately (multiset per rank) so that a failure names them
     case["impl"] = impl
     case["side"] = side
@@ -938,7 +979,70 @@ def _mk(fam, op, args, extra, d, dflt, t, kind, hseed, **kw):
     return c
 
 
+HL_TREES = [
+    (2, [[0, [[0, 1], [1, 2]]], [1, [[1, 3]]], [2, [[0, 4], [2, 5]]]]),
+    (2, [[0, [[0, 1]]], [2, [[1, 0], [2, 2]]], [3, []]]),
+    (3, [[0, [[0, [[0, 1], [2, 2]]], [1, [[1, 3]]]]], [1, [[2, [[0, 4]]]]], [2, [[0, [[1, 5]]], [2, [[2, 6]]]]]]),
+    (1, [[0, 1], [2, 0], [3, 4]]),
+]
+
+
+def highlight_sets(d, t):
+    """highlight specifications for a tree: full points, partial points (sub-tensors: fewer coordinates than
+    ranks) on first / later / absent coordinates, several workers, wildcards, the alternative argument forms"""
+    cs = [c for c, _ in t]
+    later = cs[1] if len(cs) > 1 else (cs[0] if cs else 0)
+    last = cs[-1] if cs else 0
+
+    def full(c0):
+        p, sub = [c0], dict((c, s) for c, s in t).get(c0)
+        for _ in range(d - 1):
+            if isinstance(sub, list) and sub:
+                p.append(sub[-1][0])
+                sub = sub[-1][1]
+            else:
+                p.append(0)
+                sub = None
+        return p
+    out = [({"PE": [full(later)]}, "dict"), ({"PE": [full(cs[0] if cs else 0)], "PE1": [full(last)]}, "dict")]
+    if d >= 2:
+        out += [({"PE": [[later]]}, "dict"), ({"PE": [[last]]}, "dict"), ({"PE": [[cs[0] if cs else 0]]}, "dict"),
+                ({"PE0": [[later]], "PE1": [full(last)]}, "dict"), ({"A": [[last]], "B": [[later]], "C": [[99]]}, "dict"),
+                ({"PE": [[later], [last]]}, "list"), ({"PE": [[later]]}, "single"),
+                ({"PE": [["?"] + full(later)[1:]]}, "dict")]
+    if d >= 3:
+        out += [({"PE": [full(later)[:2]]}, "dict"), ({"PE0": [[later]], "PE1": [full(last)[:2]]}, "dict")]
+    return out
+
+
+def gen_render_hl(tier):
+    quick = tier == "quick"
+    k = 0
+    for d, t in HL_TREES:
+        for hl, form in highlight_sets(d, t):
+            styles = ["tree", "uncompressed", "tree+uncompressed"]
+            for style in ([styles[k % 3]] if quick else styles):
+                for lvl in (["T", "F"][k % 2:k % 2 + 1] if quick else ["T", "F"]):
+                    k += 1
+                    kw = {"shape": [4] * d} if k % 2 else {}
+                    yield _mk("read", f"{lvl}.renderhl:{style}", {"hl": hl, "form": form}, {}, d, 0, t,
+                              "tensor" if lvl == "T" else "root", 900000 + k, **kw)
+
+
 def gen(seed, tier):
+    """slow rendering cases are spread evenly over the stream so that they do not pile up in one worker chunk"""
+    slow = list(gen_render_hl(tier))
+    stride = 100 if tier == "quick" else 300
+    i = 0
+    for c in gen_main(seed, tier):
+        yield c
+        i += 1
+        if i % stride == 0 and slow:
+            yield slow.pop()
+    yield from slow
+
+
+def gen_main(seed, tier):
     quick = tier == "quick"
     h = 0
     # ---- small scope (seed-independent) ------------------------------------------------
